@@ -25,7 +25,7 @@ const limit = 1 << 20 // what the PROPERTY says (1 MiB), not what the code says
 func init() {
 	h.Register(&h.Prop{
 		ID:     "C15",
-		Rule:   "cases: wrx (every Write scripted: short writes with a nil error, Writes returning (0, nil), a failing Write at every position), pipe (the real sendPipe on a scripted connection, its wire re-chunked and read by the real readPipe; transport failures final or transient), wr2 (two goroutines call writeTo on one connection under a scripted order of their Writes), rdzm (rdz against the model's step machine), rdz (Reads returning 0 bytes and no error in between), rde (the rd cases over a transport whose last Read returns bytes together with io.EOF), inter (two connections read concurrently under a scripted interleaving of their Read calls), rd (explicit short stream × every 2-split / 1-byte / random chunking, EOF at every offset), rdseq (≤50 frames), syn (lengths 1..5, 2^k-1,2^k,2^k+1 ≤ 2^20+1, headers 0 and > limit), wr; non-trivial = stream is delivered in ≥2 chunks or is malformed (truncated / zero / oversize header); distinct = distinct case line",
+		Rule:   "cases: wrx (every Write scripted: short writes with a nil error, Writes returning (0, nil), a failing Write at every position), pipe (the real sendPipe on a scripted connection, its wire re-chunked and read by the real readPipe; transport failures final or transient), wr2 (two goroutines call writeTo on one connection under a scripted order of their Writes), rpipe (the real readPipe on streams with a bad header in the middle), rdzm (rdz against the model's step machine), rdz (Reads returning 0 bytes and no error in between), rde (the rd cases over a transport whose last Read returns bytes together with io.EOF), inter (two connections read concurrently under a scripted interleaving of their Read calls), rd (explicit short stream × every 2-split / 1-byte / random chunking, EOF at every offset), rdseq (≤50 frames), syn (lengths 1..5, 2^k-1,2^k,2^k+1 ≤ 2^20+1, headers 0 and > limit), wr; non-trivial = stream is delivered in ≥2 chunks or is malformed (truncated / zero / oversize header); distinct = distinct case line",
 		Gen:    gen,
 		Exec:   exec,
 		Shrink: shrinkLine,
